@@ -5,10 +5,12 @@ import (
 	"crypto/x509"
 	"crypto/x509/pkix"
 	"encoding/asn1"
+	"encoding/base64"
 	"encoding/hex"
 	"errors"
 	"fmt"
 	"math/big"
+	"strings"
 	"time"
 
 	"github.com/emmansun/gmsm/cfca"
@@ -49,6 +51,16 @@ func refSM2Encrypt(pub refec.Point, k *big.Int, msg []byte) []byte {
 		panic(err)
 	}
 	return der
+}
+
+// refSM2EncryptRaw is the same ciphertext as fixed-width octets C1.x || C1.y || C3 || C2 (no 04 in front).
+func refSM2EncryptRaw(pub refec.Point, k *big.Int, msg []byte) []byte {
+	var ct sm2CipherASN1
+	if _, err := asn1.Unmarshal(refSM2Encrypt(pub, k, msg), &ct); err != nil {
+		panic(err)
+	}
+	out := append(refec.Bytes32(ct.X), refec.Bytes32(ct.Y)...)
+	return append(append(out, ct.Hash...), ct.Data...)
 }
 
 func refSM2Decrypt(d *big.Int, der []byte) ([]byte, error) {
@@ -191,6 +203,105 @@ func cfcaParseNegative(c *mon.Case, what string, password, blob []byte) {
 	c.Fail("panic", "%s: panic instead of an error: %v", what, p.Value)
 }
 
+// ---------------------------------------------------------------- CFCA escrow key (the encryption key pair CFCA returns) by the reference
+
+const escrowPrefix = "0000000000000001000000000000000100000000000000000000000000000000"
+
+type escrowASN1 struct {
+	Version      int
+	EncryptedKey []byte
+}
+
+// refEscrow encrypts X || Y || D for the holder of the temporary key tmp and writes it in one of the three
+// textual forms cfca.ParseEscrowPrivateKey reads: bare base64, prefix + 16-digit length + base64, and the
+// latter with a comma after every 64 characters.
+func refEscrow(r *mon.Rand, tmp refec.Point, d, pub []byte, form int) []byte {
+	k := r.BigBelow(new(big.Int).Sub(refec.N, big1))
+	k.Add(k, big1)
+	plain := append(append([]byte{}, pub[1:]...), d...)
+	der, err := asn1.Marshal(escrowASN1{1, refSM2EncryptRaw(tmp, k, plain)})
+	if err != nil {
+		panic(err)
+	}
+	b64 := base64.StdEncoding.EncodeToString(der)
+	switch form {
+	case 0:
+		return []byte(b64)
+	case 2:
+		var sb strings.Builder
+		for i := 0; i < len(b64); i += 64 {
+			j := i + 64
+			if j > len(b64) {
+				j = len(b64)
+			}
+			sb.WriteString(b64[i:j])
+			sb.WriteByte(',')
+		}
+		b64 = sb.String()
+	}
+	return []byte(fmt.Sprintf("%s%016d%s", escrowPrefix, len(b64), b64))
+}
+
+var escrowForms = []string{"base64", "prefix+length+base64", "prefix+length+base64 with delimiters"}
+
+// escrowCase: decode-only container. The right temporary key gives the key back, every other key gives
+// nothing, a public part that belongs to another scalar and scalars outside [1, n-2] are refused.
+func escrowCase(c *mon.Case, label string, nWrong int) {
+	s, err := newSubject(c.R, label)
+	if err != nil {
+		c.Fail("mismatch", "building the key: %v", err)
+		return
+	}
+	tmp, err := newSubject(c.R, []string{"sm2/random", "sm2/hi0", "sm2/d=max", "sm2/d=1"}[c.R.Intn(4)])
+	if err != nil {
+		c.Fail("mismatch", "building the temporary key: %v", err)
+		return
+	}
+	tk := tmp.priv.(*sm2.PrivateKey)
+	tp, _ := refec.Decode(tmp.pub)
+	c.Detail("scalar", s.d)
+	c.Detail("temporary_key", tmp.d)
+	parse := func(k *sm2.PrivateKey, data []byte) (any, error) {
+		g, err := cfca.ParseEscrowPrivateKey(k, data)
+		return nilIfErr(g, err), err
+	}
+	var datas [][]byte
+	for form, fn := range escrowForms {
+		data := refEscrow(c.R, tp, s.d, s.pub, form)
+		datas = append(datas, data)
+		g, err := parse(tk, data)
+		decoded(c, "reference-written escrow key ("+fn+") -> cfca.ParseEscrowPrivateKey", s, g, err, "*sm2.PrivateKey")
+	}
+	c.Detail("escrow_key", string(datas[1]))
+	for i := 0; i < nWrong; i++ {
+		kind := []string{"random", "hi0", "d=1", "d=2", "d=max"}[i%5]
+		wk := s.priv.(*sm2.PrivateKey) // the escrowed key itself
+		if i != 5 {
+			if wk, err = sm2.NewPrivateKey(scalar(c.R, kind, new(big.Int).Sub(refec.N, big.NewInt(2)), 32)); err != nil {
+				continue
+			}
+		}
+		if wk.D.Cmp(tk.D) == 0 {
+			continue
+		}
+		g, err := parse(wk, datas[i%3])
+		refused(c, fmt.Sprintf("cfca.ParseEscrowPrivateKey with the wrong temporary key %x", wk.D), g, err)
+	}
+	other, err := newSubject(c.R, "sm2/random")
+	if err == nil && !bytes.Equal(other.d, s.d) {
+		g, err := parse(tk, refEscrow(c.R, tp, s.d, other.pub, c.R.Intn(3)))
+		refused(c, "cfca.ParseEscrowPrivateKey(escrow key whose public part belongs to another scalar)", g, err)
+	}
+	for _, bad := range outOfRange(refec.N, 32, true) {
+		pub := refec.G.Marshal()
+		if bad.name == "n-1" {
+			pub = refec.Neg(refec.G).Marshal()
+		}
+		g, err := parse(tk, refEscrow(c.R, tp, bad.v.FillBytes(make([]byte, 32)), pub, c.R.Intn(3)))
+		refused(c, "cfca.ParseEscrowPrivateKey(escrow key with the out-of-range scalar "+bad.name+")", g, err)
+	}
+}
+
 // ---------------------------------------------------------------- workload: round trips, wrong keys, wrong passwords
 
 var sm2Labels = []string{"sm2/d=1", "sm2/d=2", "sm2/d=max", "sm2/hi0", "sm2/hi00", "sm2/lo0", "sm2/random", "sm2/pubx0", "sm2/puby0"}
@@ -206,6 +317,14 @@ func wrapWorkload(x *mon.Ctx) {
 				c.Class("envelope/%s", label)
 				c.Call("envelope case", func() { envelopeCase(c, label, nWrong) })
 				c.End()
+			}
+			if rep < x.Scale(3, 40) {
+				c = x.Begin("CFCA escrow key of %s rep=%d", label, rep)
+				if c != nil {
+					c.Class("escrow/%s", label)
+					c.Call("escrow case", func() { escrowCase(c, label, nWrong) })
+					c.End()
+				}
 			}
 			pk := []string{"1byte", "64bytes", "utf8", "ascii"}[rep%4]
 			c = x.Begin("CFCA key blob of %s password=%s rep=%d", label, pk, rep)
@@ -238,6 +357,7 @@ func envelopeCase(c *mon.Case, label string, nWrong int) {
 		return
 	}
 	c.Detail("envelope", env)
+	publish(c, "envelope", env)
 	g, err := sm2.ParseEnvelopedPrivateKey(rk, env)
 	decoded(c, "MarshalEnvelopedPrivateKey -> ParseEnvelopedPrivateKey", s, g, err, "*sm2.PrivateKey")
 	// the reference opens the library's envelope
@@ -254,6 +374,10 @@ func envelopeCase(c *mon.Case, label string, nWrong int) {
 	env2 := refEnvelope(c.R, rp, s.d, s.pub)
 	g, err = sm2.ParseEnvelopedPrivateKey(rk, env2)
 	decoded(c, "reference-written envelope -> ParseEnvelopedPrivateKey", s, g, err, "*sm2.PrivateKey")
+	// the envelope inside a GM/T 0092 CSRResponse
+	if c.R.Intn(2) == 0 {
+		c.Call("CSRResponse", func() { csrResponse(c, s, rcp) })
+	}
 	// wrong unwrapping keys
 	for i := 0; i < nWrong; i++ {
 		kind := []string{"random", "hi0", "d=1", "d=2", "d=max"}[i%5]
@@ -287,6 +411,60 @@ func envelopeCase(c *mon.Case, label string, nWrong int) {
 	}
 }
 
+// csrResponseASN1 is GM/T 0092 CSRResponse as the harness reads it.
+type csrResponseASN1 struct {
+	SignCerts    []asn1.RawValue `asn1:"set"`
+	EnvelopedKey asn1.RawValue   `asn1:"optional,tag:0"`
+	EncryptCerts asn1.RawValue   `asn1:"optional,tag:1"`
+}
+
+// csrResponse: smx509.MarshalCSRResponse carries the SM2 enveloped key of s for the holder of rcp;
+// ParseCSRResponse gives the key back, the reference opens the embedded envelope, another signing key gets nothing.
+func csrResponse(c *mon.Case, s, rcp *subject) {
+	k, rk := s.priv.(*sm2.PrivateKey), rcp.priv.(*sm2.PrivateKey)
+	signCert, err1 := makeCert(c, rk)
+	encCert, err2 := makeCert(c, k)
+	if err1 != nil || err2 != nil {
+		c.Fail("reject", "issuing the certificates: %v %v", err1, err2)
+		return
+	}
+	var der []byte
+	var err error
+	withCryptoRand(libRand(c), func() {
+		der, err = smx509.MarshalCSRResponse([]*smx509.Certificate{signCert}, k, []*smx509.Certificate{encCert})
+	})
+	if err != nil {
+		c.Fail("reject", "smx509.MarshalCSRResponse(%s): %v", s.label, err)
+		return
+	}
+	c.Detail("csr_response", der)
+	publish(c, "csrresponse", der)
+	resp, err := smx509.ParseCSRResponse(rk, der)
+	if decoded(c, "MarshalCSRResponse -> ParseCSRResponse", s, nilIfErr(resp.EncryptPrivateKey, err), err, "*sm2.PrivateKey") {
+		if len(resp.SignCerts) != 1 || len(resp.EncryptCerts) != 1 || !bytes.Equal(resp.SignCerts[0].Raw, signCert.Raw) || !bytes.Equal(resp.EncryptCerts[0].Raw, encCert.Raw) {
+			c.Fail("mismatch", "smx509.ParseCSRResponse returns other certificates than were marshalled")
+		}
+	}
+	var r csrResponseASN1
+	if rest, err := asn1.Unmarshal(der, &r); err != nil || len(rest) != 0 {
+		c.Fail("mismatch", "the reference cannot read the CSRResponse: %v", err)
+	} else {
+		d, pub, err := refOpenEnvelope(new(big.Int).SetBytes(rcp.d), r.EnvelopedKey.Bytes)
+		c.Event("reference_decrypts", 1)
+		if err != nil {
+			c.Fail("mismatch", "the reference cannot open the envelope inside the CSRResponse: %v", err)
+		} else {
+			c.Eq("scalar inside the CSRResponse (reference)", d, s.d)
+			c.Eq("public key inside the CSRResponse (reference)", pub, s.pub)
+		}
+	}
+	// the key that is being delivered is not the key that opens the response
+	if k.D.Cmp(rk.D) != 0 {
+		resp, err := smx509.ParseCSRResponse(k, der)
+		refused(c, "smx509.ParseCSRResponse with another signing key", nilIfErr(resp.EncryptPrivateKey, err), err)
+	}
+}
+
 func cfcaCase(c *mon.Case, label, pk string, nWrong int) {
 	s, err := newSubject(c.R, label)
 	if err != nil {
@@ -308,6 +486,7 @@ func cfcaCase(c *mon.Case, label, pk string, nWrong int) {
 		return
 	}
 	c.Detail("blob", blob)
+	publish(c, "cfca", blob)
 	g, gc, err := cfca.ParseSM2(pw, blob)
 	if decoded(c, "cfca.MarshalSM2 -> ParseSM2", s, g, err, "*sm2.PrivateKey") {
 		if gc == nil || !bytes.Equal(gc.Raw, cert.Raw) {
